@@ -34,7 +34,7 @@ def main():
     src = '/tmp/seed/%s_out/%s' % (pid, n)
     dest = os.path.join(VERIF, 'seeded', '%s_%s' % (pid, n))
     patch = os.path.join(src, 'patch.diff')
-    if not os.path.exists(patch) and os.path.exists(os.path.join(dest, 'patch.diff')):
+    if os.path.exists(os.path.join(dest, 'patch.diff')):          # once kept under /verif/seeded, that copy is the one that counts
         src = dest
         patch = os.path.join(src, 'patch.diff')
     scratch = '/tmp/seedchk_%s_%s' % (pid, n)
